@@ -503,7 +503,10 @@ class Concatenator(Group):  # pylint: disable=too-many-public-methods
             del parent_attr[f"Property:{name}"]
 
         elif isinstance(entity, ConcatenatedObject):
-            # First remove the children
+            # Load the data that were not read yet, then remove the children
+            for name in entity.get_data_list():
+                entity.get_data(name)
+
             entity.remove_children(entity.children.copy())
 
             # Then the rows of the object's own arrays
